@@ -16,6 +16,7 @@ CHECKS = {
   "C04": ("vcheck", "differential testing: generated shared-feature schemas x JSON-model documents, JSON validator vs CBOR validator verdict classes, calls isolated in worker processes; proptest shrinking", "3/C04"),
   "C05": ("vcheck", "fuzzing-style robustness testing: grammar-sampled, mutated and random inputs to every entry point, each call in a child worker process (8 MiB stack, 4 GiB address space, per-call limit); panics / aborts / hangs are violations; growth series for the polynomial-time clause; proptest shrinking", "3/C05"),
   "C06": ("vcheck", "property-based testing: grammar-sampled documents, parse->Display->parse round-trip oracle on an independent AST skeleton, idempotence, proptest shrinking", "3/C06"),
+  "C07": ("vcheck", "property-based testing: literal spellings with the value known by construction (radix/sign/boundary integers, dyadic and shortest round-trip floats, hex floats, every escape form of text, h/b64/plain byte strings with embedded trivia) placed at every literal position; the AST must carry exactly that value or the text must be rejected; proptest shrinking", "3/C07"),
   "C08": ("vcheck", "metamorphic testing: 1-3 composed meaning-preserving refactorings of generated schemas (extract/inline rules, identity generics, generic substitution by hand incl. nested generics, /= and //= increments, sockets, parentheses, renaming, rule order) must keep the verdict of each validator; worker-process isolation; proptest shrinking", "3/C08"),
   "C09": ("vcheck", "metamorphic testing: boolean identities between separate validator runs (choice, .and/.within, .ne/.eq, range forms, occurrence forms, prelude definitions) in four contexts, both validators, worker-process isolation; proptest shrinking", "3/C09"),
   "C10": ("vcheck", "metamorphic testing: permutations of map pairs (CBOR encoding / JSON text) and of disjoint-key schema members must not change the verdict; repeated keys compared with the reference semantics; worker-process isolation; proptest shrinking", "3/C10"),
